@@ -67,7 +67,7 @@ def expected_pairs(ps, mode, periodic, dt_last, L=BOX):
                 rs = ps[i][6] + ps[j][6]
                 if mode in ("direct", "tree"):
                     d2 = dx * dx + dy * dy + dz * dz
-                    appr = dvx * dx + dvy * dy + dvz * dz
+                    appr = (dvx * dx + dvy * dy + dvz * dz) * (1.0 if dt_last >= 0 else -1.0)      # approaching in the direction the integration runs
                     margin = min(rs * rs - d2, -appr)         # >0: overlapping and approaching
                     scale = rs * rs + abs(appr) + 1e-300
                 else:
@@ -125,6 +125,14 @@ class Detect:
         must, maybe = expected_pairs(byorig, mode, periodic, sim.dt_last_done, boxsize(bodies))
         V = []
         miss = must - gotp
+        if miss and dtsign < 0 and mode in ("direct", "tree"):
+            # is it the forward-time notion of 'approaching' applied to a backward step?  (then exactly the pairs that approach in
+            # forward time are handed over)
+            fwd_must, fwd_maybe = expected_pairs(byorig, mode, periodic, abs(sim.dt_last_done), boxsize(bodies))
+            if fwd_must <= gotp <= (fwd_must | fwd_maybe):
+                return [("detect:backward-step:approach-judged-forward:%s" % mode,
+                         "dt<0: pair(s) %s overlap and approach each other in the direction of the integration but were not handed to the resolver; handed were %s, the pairs that approach in forward time [%s periodic=%s bodies=%s]" % (
+                             sorted(miss), sorted(gotp), mode, periodic, bodies))], len(must)
         if miss:
             kind = "equal-radii" if len(set(b[7] for b in bodies)) == 1 else "unequal-radii"
             V.append(("detect-missed:%s:%s:%s%s" % (mode, "periodic" if periodic else "open", kind, ":backward" if dtsign < 0 else ""),
@@ -475,9 +483,8 @@ def run(ctx):
         for periodic in (False, True):
             for b in space:
                 dt.append((mode, periodic, b))
-                if mode in ("line", "linetree"):
-                    # the swept-path criterion does not depend on the direction of time
-                    dt.append((mode, periodic, b, -1))
+                # backward steps: the swept-path criterion does not depend on the direction of time; 'approaching' does
+                dt.append((mode, periodic, b, -1))
     dt = ctx.shuffled(dt)
     res = pool.run_tasks(Detect(rebound), dt, timeout=30, progress=lambda d, n: ctx.note("detection cases %d/%d" % (d, n)))
     nontrivial = 0
